@@ -172,6 +172,11 @@ def propagation_matrix(cx, N, sub):
         if cx.sym:
             numpy.linalg.eig = old
     cx.prove("shape", U.shape == (N, N, ts.length))
+    if cx.sym:
+        # intermediate multiples of the step: gives the instantiation of Exp(a+b)=Exp(a)Exp(b) the chain
+        # Exp(k*step*lam) = Exp(step*lam)^k it needs when the code reaches the start by repeated steps
+        for k in range(2, int(round((ts.start - ta.start) / ts.step)) + 1):
+            numpy.exp(lam * float(k * ts.step))
     for i in range(ts.length):
         tau = ts.data[i] - ta.start
         ref = numpy.dot(S, numpy.dot(numpy.diag(numpy.exp(lam * float(tau))), S1))
